@@ -177,6 +177,25 @@ class C17Bounded(Bounded):
                 continue
             if not isinstance(got, str):
                 fail("literal-history", f"one backend converted the literal text {lv} ({shape}{', same rule' if same_rule else ''}: {lit_out}) and then a value with the unresolved placeholder %a%-x: query {got} instead of a Sigma error", [shape, list(lit), same_rule])
+        # backends with other escaping settings for regular expressions (nothing to escape at all; no flag prefix): an unresolved placeholder
+        # inside a regular expression is an error there too
+        class NoEsc(TextQueryTestBackend):
+            re_escape = ()
+            re_escape_escape_char = False
+
+        class NoEscNoFlags(NoEsc):
+            re_flag_prefix = False
+        for B, key in itertools.product((NoEsc, NoEscNoFlags), ("f|re|expand", "f|re|i|expand", "'|re|expand'", "f|re|expand|s")):
+            ev += 1
+            nontriv += 1
+            rule = f"title: t\nlogsource:\n  category: c\ndetection:\n  s:\n    {key}: 'foo%a%bar.*'\n  condition: s\n"
+            try:
+                out = B().convert(SigmaCollection.from_yaml(rule))
+            except SigmaError:
+                continue
+            except Exception as e:
+                out = f"non-Sigma {type(e).__name__}: {e}"
+            fail("regex-noescape", f"backend without regular-expression escaping ({B.__name__}), {key}: 'foo%a%bar.*' with the placeholder unresolved gives {out} instead of a Sigma error", [B.__name__, key])
         return {"evaluations": ev, "distinct_nontrivial": nontriv, "failures": fails, "failure_counts": seen,
                 "bound": f"literal-then-placeholder histories in 5 value positions x 2 spellings x same / next rule; three histories on one backend object (variables changed / removed / pipeline merged elsewhere between two conversions); {len(vals)} values (<= 3 pieces over {pieces}) x 6 positions (string, keyword, contains, regular expression without / followed by / surrounded by flag modifiers) x {len(pipes)} pipelines", "rule": "distinct (position, value, pipeline); non-trivial = at least one placeholder",
                 "samples": samples, "exhaustive": tier != "quick"}
